@@ -59,6 +59,14 @@ def build_obj(spec):
     t = spec["type"]
     if t == "crs":
         return mk_crs(spec["tag"])
+    if t == "crs_like":
+        # a PROJ string without authority code that resembles an EPSG CRS; optionally with the lazy EPSG lookup done
+        from odc.geo.crs import CRS
+
+        c = CRS(LIKE[spec["like"]])
+        if spec.get("read_epsg"):
+            c.epsg
+        return c
     if t == "bbox":
         return G.BoundingBox(*spec["box"], crs=mk_crs_spec(spec["tag"]))
     if t == "geom":
@@ -92,6 +100,13 @@ def build_obj(spec):
     raise ValueError(t)
 
 
+# PROJ strings a user (or a file without authority codes) supplies for "the same" CRS: pyproj's approximate matching
+# maps like:4326 to EPSG:4326 although its axis order is lon/lat (a look-alike pyproj matches to nothing, e.g. the
+# GRS80 variant of GDA94, is not used: its fruitless database search takes 10 s per lookup)
+LIKE = {"like:4326": "+proj=longlat +datum=WGS84 +no_defs +type=crs"}
+LIKE_OF = {"like:4326": "4326"}
+
+
 def T4326(spell="int"):
     return {"label": "4326", "spell": spell}
 
@@ -102,6 +117,8 @@ def families():
     F["crs"] = [{"type": "crs", "tag": {"label": lab, "spell": sp}} for lab, sp in
                 [("4326", "int"), ("4326", "str_lower"), ("4326", "wkt2"), ("4326", "pyproj"), ("4326", "projjson"), ("4326", "pickle"), ("4283", "int"), ("4283", "wkt2"),
                  ("3857", "int"), ("3857", "str_mixed"), ("3857", "odc"), ("32633", "int"), ("32633", "wkt2"), ("sinu", "proj"), ("sinu", "wkt2"), ("sinu", "pyproj")]]
+    F["crs_lookalike"] = [{"type": "crs_like", "like": k, "read_epsg": r} for k in LIKE for r in (False, True)] + [
+        {"type": "crs", "tag": {"label": lab, "spell": sp}} for lab, sp in (("4326", "int"), ("4326", "wkt2"), ("4283", "int"), ("3857", "int"))]
     base = [0.0, 1.0, 2.0, 3.0]
     F["bbox"] = [{"type": "bbox", "box": base, "tag": T4326()}]
     for i in range(4):
@@ -189,7 +206,7 @@ def _eq(a, b):
 
 def check_single(spec, T):
     a = build_obj(spec)
-    if spec["type"] == "crs":
+    if spec["type"] in ("crs", "crs_like"):
         a.epsg  # lazily looked-up state must not change what a clone looks like
     elif spec["type"] == "gcp":
         a.pix2wld(0.5, 0.5)  # fitted polynomials are lazily cached state too
@@ -335,11 +352,22 @@ def _reference(label, spell):
     k = _spec_key(label, spell)
     if k not in _REF:
         _clear_caches()
-        c = mk_crs({"label": label, "spell": spell}) if not label.startswith("utm:") else _mk_utm(label, spell)
+        c = _mk_any(label, spell)
         _REF[k] = (str(c), hash(c), tok(c))
         del c
         _clear_caches()
     return _REF[k]
+
+
+def _mk_any(label, spell):
+    if label.startswith("utm:"):
+        return _mk_utm(label, spell)
+    if label.startswith("like:"):
+        from odc.geo.crs import CRS
+        from pyproj import CRS as P
+
+        return CRS(P.from_user_input(LIKE[label])) if spell == "pyproj" else CRS(LIKE[label])
+    return mk_crs({"label": label, "spell": spell})
 
 
 def _mk_utm(label, spell):
@@ -364,6 +392,8 @@ def _lonlat_box(label):
         south = code // 100 == 327
         lon0 = -180 + 6 * (z - 1)
         return (lon0 + 1, -60.0, lon0 + 5, -10.0) if south else (lon0 + 1, 10.0, lon0 + 5, 60.0)
+    if label.startswith("like:"):
+        return CRS_POOL[LIKE_OF[label]][1]
     return CRS_POOL[label][1]
 
 
@@ -374,11 +404,34 @@ def _pyproj_of(label):
 
     if label.startswith("utm:"):
         return P.from_epsg(int(label.split(":")[1]))
+    if label.startswith("like:"):
+        return P.from_user_input(LIKE[label])
     return _pyproj(label)
 
 
 @st.composite
+def s_lookalike(draw):
+    """An authority-less look-alike and the EPSG CRS it resembles (axis order differs), the lazy EPSG lookup on either,
+    then transformer requests from/to both in either axis convention, in any order."""
+    like = draw(st.sampled_from(sorted(LIKE)))
+    real = LIKE_OF[like]
+    other = draw(st.sampled_from([lab for lab in HIST_LABELS if lab != real]))
+    ops = [["new", like, draw(st.sampled_from(["proj", "pyproj"]))], ["new", real, draw(st.sampled_from(SPELLINGS))], ["new", other, "proj" if other == "sinu" else "int"]]
+    rest = [["epsg", 0]] * draw(st.integers(0, 1)) + [["epsg", 1]] * draw(st.integers(0, 1))
+    for _ in range(draw(st.integers(2, 6))):
+        a = draw(st.integers(0, 1))
+        axy = draw(st.sampled_from([False, False, True]))
+        rest.append(["tr", a, 2, axy] if draw(st.booleans()) else ["tr", 2, a, axy])
+    rest = draw(st.permutations(rest))
+    if draw(st.booleans()):
+        rest = [["epsg", 0]] + list(rest)
+    return {"ops": ops + [list(o) for o in rest]}
+
+
+@st.composite
 def s_history(draw):
+    if draw(st.integers(0, 4)) == 0:
+        return draw(s_lookalike())
     n = draw(st.integers(3, 40))
     ops = []
     nobj = 0
@@ -457,7 +510,7 @@ def o_history(case, T):
     interesting = False
 
     def construct(label, spell):
-        c = _mk_utm(label, spell) if label.startswith("utm:") else mk_crs({"label": label, "spell": spell})
+        c = _mk_any(label, spell)
         got = (str(c), hash(c), tok(c))
         k = _spec_key(label, spell)
         ref = _reference_cached(k)
@@ -558,6 +611,9 @@ def o_history(case, T):
                 require(ok, "transformer %s -> %s (always_xy=%r) maps %r to %r, a fresh pyproj transformer gives %r", la, lb, axy, (sx[k], sy[k]), (float(gx[k]), float(gy[k])), (ex[k], ey[k]))
             if dropped_then_gc:
                 interesting = True
+    if any(o[0] == "new" and o[1].startswith("like:") for o in case["ops"]) and any(o[0] == "tr" for o in case["ops"]):
+        T.cls("has_lookalike")
+        T.nontrivial()
     if interesting:
         T.nontrivial()
         T.cls("transformer_after_drop_gc")
@@ -627,6 +683,29 @@ def _known_d3(sub, case, msg):
     return False
 
 
+def _known_d36(sub, case, msg):
+    """A CRS without authority code whose ``.epsg`` has been read carries the code pyproj's approximate matching found,
+    and ``==`` trusts any two codes: it then equals the EPSG CRS (different axis order, different hash) although it did
+    not before the lookup and although an identical CRS object without the lookup still does not."""
+    if sub == "pairs" and "have different hashes" in msg:
+        specs = [case["a"], case["b"]]
+    elif sub == "triples" and "not transitive" in msg:
+        specs = list(case["specs"])
+    else:
+        return False
+    if not any(sp.get("type") == "crs_like" and sp.get("read_epsg") for sp in specs):
+        return False
+    if not all(sp.get("type") in ("crs", "crs_like") for sp in specs):
+        return False
+    # attributable to the lazily stored code only: the same values without the lookup behave
+    objs = [build_obj(dict(sp, read_epsg=False)) if sp["type"] == "crs_like" else build_obj(sp) for sp in specs]
+    if sub == "pairs":
+        a, b = objs
+        return not (a == b) and not (b == a)
+    a, b, c = objs
+    return not (a == b and b == c) or a == c
+
+
 def build(chk: Check) -> None:
     chk.sub("single", o_single, enum=e_single, exhaustive_tiers=("quick", "thorough"))
     chk.sub("pairs", o_pair, enum=e_pairs, exhaustive_tiers=("quick", "thorough"))
@@ -635,3 +714,4 @@ def build(chk: Check) -> None:
     chk.sub("history", o_history, strategy=s_history(), n={"quick": 300, "thorough": 20000})
     chk.sub("cache_pressure", o_history, strategy=s_pressure(), n={"quick": 60, "thorough": 3000}, shrink=False, budget_s={"quick": 60, "thorough": 600})
     chk.known("D3", _known_d3)
+    chk.known("D36", _known_d36)
